@@ -63,7 +63,7 @@ def shards(tier, seed):
             mine = (mine[k:] + mine[:k])[:2]
             ncases, nmax, ndiff = 140, 700, 1
         else:
-            ncases, nmax, ndiff = 300, 4000, 2
+            ncases, nmax, ndiff = 900, 4000, 2
         out.append(dict(tier=tier, seed=seed * 1000 + i, idx=i, devs=mine, ncases=ncases, nmax=nmax, ndiff=ndiff))
     return out
 
